@@ -3,6 +3,7 @@ import Restful.Lemmas.TieImpBridge
 namespace Restful
 namespace TieImp
 open Imp
+set_option linter.unusedSimpArgs false
 
 /-- a service of the model as the `*WebService` the function walks; `mk` builds the Route value around
     the two fields that are read -/
@@ -27,22 +28,25 @@ def onMatch {σ : Type} (E : ReEnv) (tmpl s : Str) (acc : σ) (k : Str → Optio
     | some (_, last) => k last
     | none => some (.yield acc)
 
-/-- the code's way of reading a compiled expression (`deref`, `Matcher`, `isEmpty`, `at? … (len … - 1)`) is `onMatch` -/
-theorem onMatch_tie {σ : Type} (E : ReEnv) (tmpl s : Str) (acc : σ) (k : Str → Option (ForInStep σ)) :
-    ((genPE E tmpl).bind fun pe =>
-        if (!(pe.Matcher s).isEmpty) = true then (at? (pe.Matcher s) (len (pe.Matcher s) - 1)).bind k
-        else some (ForInStep.yield acc)) = onMatch E tmpl s acc k := by
+/-- the code's way of reading a compiled expression is `onMatch`, for ANY code `F` (it reads `pe.Matcher s`
+    however it likes: nested `if matches != nil {…}` or a guard `if matches == nil { continue }`) that does
+    nothing on no match and `k` of the last group on a match; `none` = nil `pathExpr` -/
+theorem onMatch_gen {σ : Type} (E : ReEnv) (tmpl s : Str) (acc : σ) (k : Str → Option (ForInStep σ))
+    (F : ImpGen.GoPathExpression → Option (ForInStep σ))
+    (hF : ∀ pe : ImpGen.GoPathExpression,
+      (pe.Matcher s = [] → F pe = some (ForInStep.yield acc)) ∧
+      (∀ caps fin, pe.Matcher s = s :: (caps ++ [fin]) → F pe = k fin)) :
+    (genPE E tmpl).bind F = onMatch E tmpl s acc k := by
   unfold onMatch genPE
   cases Jsr.compile tmpl with
   | none => rfl
   | some ex =>
     simp only [Option.map_some, Option.bind_some]
-    unfold reOf
-    cases Jsr.matchExpr E ex.toks s with
-    | none => rfl
+    cases hm : Jsr.matchExpr E ex.toks s with
+    | none => exact (hF _).1 (by simp [reOf, hm])
     | some r =>
       obtain ⟨caps, fin⟩ := r
-      simp only [List.isEmpty_cons, Bool.not_false, if_true, at?_last_match, Option.bind_some]
+      exact (hF _).2 caps fin (by simp [reOf, hm])
 
 /-- one iteration of the inner loop, by the model -/
 def innerStep (E : ReEnv) (finalMatch : Str) (rt : RouteDecl) (acc : List Str) : Option (ForInStep (List Str)) :=
@@ -132,19 +136,23 @@ theorem compute_allowed_methods (E : ReEnv) (X : ImpGen.Ext)
     simp only [Option.bind_some]
     rw [show (genWS E mk ws).pathExpr = genPE E ws.rootPath from rfl,
         show (genWS E mk ws).routes = ws.routes.map (fun rt => mk rt (genPE E rt.relPath)) from rfl]
-    rw [T9.onMatch_tie]
     unfold T9.outerStep
-    congr 1
-    funext finalMatch
-    rw [T9.inner_loop E finalMatch (fun rt => mk rt (genPE E rt.relPath)) _ ?hf2]
-    case hf2 =>
-      intro rt acc
-      rw [(hmk rt _).2, (hmk rt _).1, T9.onMatch_tie]
-      unfold T9.innerStep
-      congr 1
-      funext last
-      simp only [String.reduceToList, push, beq_iff_eq, decide_eq_true_eq, Bool.or_eq_true]
-    · cases Cors.routeMethods E ws.routes finalMatch <;> rfl
+    refine T9.onMatch_gen E _ _ acc _ _ (fun pe => ⟨fun h0 => ?_, fun caps finalMatch h1 => ?_⟩)
+    · simp [h0]
+    · simp only [h1, List.isEmpty_cons, Bool.not_false, Bool.not_true, Bool.false_eq_true, if_true, if_false,
+        ↓reduceIte, T9.at?_last_match, Option.bind_some, Option.pure_def, Option.bind_eq_bind]
+      rw [T9.inner_loop E finalMatch (fun rt => mk rt (genPE E rt.relPath)) _ ?hf2]
+      case hf2 =>
+        intro rt acc
+        rw [(hmk rt _).2, (hmk rt _).1]
+        unfold T9.innerStep
+        refine T9.onMatch_gen E _ _ acc _ _ (fun pe => ⟨fun h0 => ?_, fun caps last h1 => ?_⟩)
+        · simp [h0]
+        · simp only [h1, List.isEmpty_cons, Bool.not_false, Bool.not_true, Bool.false_eq_true, if_true, if_false,
+            ↓reduceIte, T9.at?_last_match, Option.bind_some, Option.pure_def, Option.bind_eq_bind]
+          by_cases hl : (last = [] || last = ['/']) = true <;>
+            simp_all [push]
+      · cases Cors.routeMethods E ws.routes finalMatch <;> rfl
   · cases Cors.computeAllowedMethods E svcs hr.path <;> simp
 
 #print axioms compute_allowed_methods
